@@ -9,7 +9,7 @@
    reachable state (App/PoolExact.v, C04_pool_holds_exactly_the_stake_all_histories). *)
 From Coq Require Import List ZArith NArith Bool Lia.
 From PM Require Import Base.Bytes Store.KV Store.MergeProofs App.QueueProofs Num.IntModel Num.DecModel Num.DecProofs
-  App.Model App.BankProofs App.TxProofs App.KeyProofs App.PosProofs App.IndexProofs App.PoolProofs App.PoolExact App.Examples App.Invariants.
+  App.Model App.BankProofs App.TxProofs App.KeyProofs App.PosProofs App.IndexProofs App.PoolProofs App.PoolExact App.Examples App.Invariants App.KeyTypes App.KeyTypesMore.
 Import ListNotations.
 Local Open Scope Z_scope.
 
@@ -76,6 +76,14 @@ Example C04_ex : match ex_genesis with
                    | _ => False end
   | None => False end.
 Proof. vm_compute. repeat split; reflexivity. Qed.
+(* both history-level statements when the consensus parameters admit ed25519 validator keys only (run_cp, App/KeyTypes.v) *)
+Theorem C04_pool_backs_stake_under_key_restriction MA r ops s s' :
+  pool_ok MA s -> Forall (op_ok MA) ops -> run_cp r ops s = Some s' -> pool_ok MA s'.
+Proof. exact (run_cp_pool MA r ops s s'). Qed.
+Theorem C04_pool_holds_exactly_the_stake_under_key_restriction MA r ops s s' :
+  px MA s -> Forall (op_nogift MA) ops -> run_cp r ops s = Some s' -> px MA s'.
+Proof. exact (run_cp_px MA r ops s s'). Qed.
+Print Assumptions C04_pool_holds_exactly_the_stake_under_key_restriction.
 Print Assumptions C04_stake_exact_partial.
 Print Assumptions C04_pool_backs_stake_all_histories.
 Print Assumptions C04_genesis.
